@@ -11,6 +11,9 @@ mod c05;
 mod c06;
 mod c07;
 mod c08;
+mod c09_15;
+mod dml;
+mod hist;
 mod c21;
 
 /// Expands to a `match` over property ids calling the generic function `$f`
@@ -25,6 +28,11 @@ macro_rules! dispatch {
             "C06" => $f(c06::C06, $($extra),*),
             "C07" => $f(c07::C07, $($extra),*),
             "C08" => $f(c08::C08, $($extra),*),
+            "C09" => $f(c09_15::C09, $($extra),*),
+            "C10" => $f(c09_15::C10, $($extra),*),
+            "C11" => $f(c09_15::C11, $($extra),*),
+            "C12" => $f(c09_15::C12, $($extra),*),
+            "C15" => $f(c09_15::C15, $($extra),*),
             "C21" => $f(c21::C21, $($extra),*),
             other => {
                 eprintln!("unknown property id {}", other);
